@@ -25,6 +25,13 @@ fn ga_sentinel(n: u32) -> get_assertion::Response {
     }
     .build();
     r.number_of_credentials = Some(n);
+    // every optional member set to a non-default value: a dispatcher that touches the handler's
+    // result in any member is seen
+    r.user = Some(ctap_types::webauthn::PublicKeyCredentialUserEntity::from(ctap_types::Bytes::from_slice(&[n as u8, 7]).unwrap()));
+    r.user_selected = Some(true);
+    r.large_blob_key = Some(ctap_types::ByteArray::new([n as u8; 32]));
+    r.ep_att = Some(true);
+    r.att_stmt = Some(ctap2::AttestationStatement::None(ctap2::NoneAttestationStatement {}));
     r
 }
 
@@ -35,6 +42,12 @@ pub fn sentinel_mc() -> make_credential::Response {
     }
     .build();
     r.ep_att = Some(true);
+    r.att_stmt = Some(ctap2::AttestationStatement::Packed(ctap2::PackedAttestationStatement {
+        alg: -7,
+        sig: ctap_types::Bytes::from_slice(&[3; 9]).unwrap(),
+        x5c: None,
+    }));
+    r.large_blob_key = Some(ctap_types::ByteArray::new([0x4c; 32]));
     r
 }
 pub fn sentinel_ga() -> get_assertion::Response {
@@ -46,11 +59,20 @@ pub fn sentinel_gna() -> get_assertion::Response {
 pub fn sentinel_cp() -> client_pin::Response {
     let mut r = client_pin::Response::default();
     r.retries = Some(33);
+    r.pin_token = Some(ctap_types::Bytes::from_slice(&[0x70; 32]).unwrap());
+    r.power_cycle_state = Some(true);
+    r.uv_retries = Some(3);
     r
 }
 pub fn sentinel_cm() -> credential_management::Response {
     let mut r = credential_management::Response::default();
     r.total_rps = Some(44);
+    r.existing_resident_credentials_count = Some(1);
+    r.max_possible_remaining_residential_credentials_count = Some(2);
+    r.rp_id_hash = Some(ctap_types::ByteArray::new([0x52; 32]));
+    r.total_credentials = Some(5);
+    r.cred_protect = Some(credential_management::CredentialProtectionPolicy::Required);
+    r.large_blob_key = Some(ctap_types::ByteArray::new([0x4b; 32]));
     r
 }
 pub fn sentinel_lb() -> large_blobs::Response {
@@ -61,6 +83,9 @@ pub fn sentinel_lb() -> large_blobs::Response {
 pub fn sentinel_gi() -> get_info::Response {
     let mut r = get_info::Response::default();
     r.max_msg_size = Some(55);
+    r.max_creds_in_list = Some(10);
+    r.max_cred_id_length = Some(255);
+    r.max_serialized_large_blob_array = Some(1024);
     r
 }
 pub fn sentinel_reg() -> ctap1::register::Response {
